@@ -72,8 +72,10 @@ func c18RunCall(cl pool.Call) (o pool.Out, panicked any) {
 
 // c18Shuffles runs n shuffled sequential passes over the pool and returns every difference from
 // the baseline, plus every alteration of data handed back by an earlier call.
-func c18Shuffles(calls []pool.Call, base []string, rng *rand.Rand, n, heavyOneIn int, st *c18Stats) []c18Finding {
+func c18Shuffles(calls []pool.Call, base []string, prior []int, rng *rand.Rand, n, heavyOneIn int, st *c18Stats) []c18Finding {
 	var out []c18Finding
+	// everything this process executed so far (the state a result could depend on), capped
+	order := append([]int(nil), prior...)
 	type kept struct {
 		idx  int
 		snap string
@@ -81,7 +83,9 @@ func c18Shuffles(calls []pool.Call, base []string, rng *rand.Rand, n, heavyOneIn
 	}
 	for s := 0; s < n && len(out) < 10; s++ {
 		perm := rng.Perm(len(calls))
-		var order []int
+		if len(order) > 6000 {
+			order = append([]int(nil), order[len(order)-6000:]...)
+		}
 		var ring []kept
 		prev := -1
 		for _, i := range perm {
@@ -210,7 +214,7 @@ func subC18Seq(args []string) {
 		os.Exit(2)
 	}
 	st := &c18Stats{}
-	fs := c18Shuffles(calls, base, rand.New(rand.NewPCG(seed, 0xC18)), n, h, st)
+	fs := c18Shuffles(calls, base, nil, rand.New(rand.NewPCG(seed, 0xC18)), n, h, st)
 	for _, f := range fs {
 		line, _ := stdjson.Marshal(f)
 		fmt.Println(string(line))
@@ -241,11 +245,17 @@ func c18Child(timeout time.Duration, args ...string) (string, error) {
 
 // c18OrderRepro: does running `order` (the failing call last) in a fresh process give `got ≠ want`?
 func c18OrderRepro(order []int, want string) (bool, string) {
+	c18ShrinkMu.Lock()
+	late := !c18ShrinkDeadline.IsZero() && time.Now().After(c18ShrinkDeadline)
+	c18ShrinkMu.Unlock()
+	if late {
+		return false, "shrink budget exhausted"
+	}
 	strs := make([]string, len(order))
 	for i, x := range order {
 		strs[i] = strconv.Itoa(x)
 	}
-	out, err := c18Child(5*time.Minute, "-sub", "c18order", strings.Join(strs, ","))
+	out, err := c18Child(2*time.Minute, "-sub", "c18order", strings.Join(strs, ","))
 	if err != nil {
 		return true, "child failed: " + err.Error()
 	}
@@ -253,23 +263,40 @@ func c18OrderRepro(order []int, want string) (bool, string) {
 	return got != strings.ReplaceAll(want, "\n", "\\n"), got
 }
 
-// c18ShrinkOrder reduces the history before the failing call (ddmin over fresh processes).
+// c18ShrinkOrder reduces the history before the failing call: the shortest reproducing suffix among
+// a few candidate lengths, then ddmin, every candidate run in a fresh process (bounded effort).
 func c18ShrinkOrder(order []int, want string) (min []int, reproduced bool) {
 	if len(order) == 0 {
 		return order, false
 	}
-	if ok, _ := c18OrderRepro(order, want); !ok {
+	last := order[len(order)-1]
+	all := order[:len(order)-1]
+	var hist []int
+	for _, n := range []int{0, 1, 8, 60, 400, len(all)} {
+		if n > len(all) {
+			n = len(all)
+		}
+		cand := all[len(all)-n:]
+		if ok, _ := c18OrderRepro(append(append([]int(nil), cand...), last), want); ok {
+			hist, reproduced = append([]int(nil), cand...), true
+			break
+		}
+		if n == len(all) {
+			break
+		}
+	}
+	if !reproduced {
 		return order, false
 	}
-	last := order[len(order)-1]
-	hist := append([]int(nil), order[:len(order)-1]...)
-	for chunk := (len(hist) + 1) / 2; chunk >= 1; chunk /= 2 {
-		for i := 0; i < len(hist); {
+	budget := 60 // child runs
+	for chunk := (len(hist) + 1) / 2; chunk >= 1 && budget > 0; chunk /= 2 {
+		for i := 0; i < len(hist) && budget > 0; {
 			j := i + chunk
 			if j > len(hist) {
 				j = len(hist)
 			}
 			cand := append(append([]int(nil), hist[:i]...), hist[j:]...)
+			budget--
 			if ok, _ := c18OrderRepro(append(append([]int(nil), cand...), last), want); ok {
 				hist = cand
 			} else {
@@ -283,6 +310,23 @@ func c18ShrinkOrder(order []int, want string) (min []int, reproduced bool) {
 	return append(hist, last), true
 }
 
+var (
+	c18ShrinkMu       sync.Mutex
+	c18ShrinkDeadline time.Time
+	c18Shrunk         int
+)
+
+// c18MayShrink bounds the total effort spent on reducing call orders: the first two findings, 3 minutes (15 thorough).
+func (c *Ctx) c18MayShrink() bool {
+	c18ShrinkMu.Lock()
+	defer c18ShrinkMu.Unlock()
+	if c18ShrinkDeadline.IsZero() {
+		c18ShrinkDeadline = time.Now().Add(time.Duration(c.N(180, 900)) * time.Second)
+	}
+	c18Shrunk++
+	return c18Shrunk <= 2 && time.Now().Before(c18ShrinkDeadline)
+}
+
 func (c *Ctx) c18Report(calls []pool.Call, f c18Finding) {
 	names := func(idx []int) []string {
 		var s []string
@@ -292,13 +336,21 @@ func (c *Ctx) c18Report(calls []pool.Call, f c18Finding) {
 		return s
 	}
 	detail := map[string]any{"got": trunc(f.Got, 1500), "baseline": trunc(f.Want, 1500), "history_len": len(f.Order)}
-	if f.Kind == "history-dependence" && len(f.Order) > 0 {
+	if f.Kind == "history-dependence" && len(f.Order) > 0 && c.c18MayShrink() {
 		min, ok := c18ShrinkOrder(f.Order, f.Want)
 		detail["reproduced_in_fresh_process"] = ok
+		if len(min) > 80 {
+			min = min[len(min)-80:]
+			detail["minimal_order_truncated_to_last"] = 80
+		}
 		detail["minimal_order"] = names(min)
 		detail["minimal_order_indices"] = min
-	} else if len(f.Order) > 0 && len(f.Order) <= 400 {
-		detail["order_indices"] = f.Order
+	} else if len(f.Order) > 0 {
+		o := f.Order
+		if len(o) > 60 {
+			o = o[len(o)-60:]
+		}
+		detail["last_calls_before_it"] = names(o)
 	}
 	c.Violate(f.Kind, f.Name, nil, detail)
 }
@@ -368,7 +420,11 @@ func runC18(c *Ctx) {
 		total, workers = 40, 2
 	}
 	t0 := time.Now()
-	fs := c18Shuffles(calls, base, c.Rng, inproc, heavyOneIn, st)
+	prior := make([]int, len(calls)) // the baseline pass above ran every call once, in index order
+	for i := range prior {
+		prior[i] = i
+	}
+	fs := c18Shuffles(calls, base, prior, c.Rng, inproc, heavyOneIn, st)
 	c.Note("in-process shuffles: %d passes, %d calls, %.1fs", inproc, st.Runs, time.Since(t0).Seconds())
 	for p := range st.Pairs {
 		if p[0] >= 0 {
